@@ -112,4 +112,9 @@ MUTANTS = [
     # (disabled-skips-body: equivalent mutant)
     ("unknown-key-ignored", ["C19"], "_config.py", '            raise ValueError(f"Unrecognised config value {item}")', "            pass"),
     ("disabled-double-call", ["C19"], D, "                ):\n                    return fn(*args, **kwargs)\n\n                # Raise bind-time", "                ):\n                    fn(*args, **kwargs)\n                    return fn(*args, **kwargs)\n\n                # Raise bind-time"),
+    ("pickle-nested-widened", ["C20"], A, "    if dtypes is not None and out.dtypes != dtypes:", "    if False:"),
+    ("pickle-loses-array-type", ["C20"], A, "        return _unpickle_array_annotation, (x.dtype, x.array_type, x.dim_str, dtypes)", "        return _unpickle_array_annotation, (x.dtype, Any, x.dim_str, dtypes)"),
+    ("pickle-loses-dims", ["C20"], A, "        return _unpickle_array_annotation, (x.dtype, x.array_type, x.dim_str, dtypes)", "        return _unpickle_array_annotation, (x.dtype, x.array_type, '...', dtypes)"),
+    ("sentinel-by-value", ["C20"], A, "    def __reduce__(self):\n        return self._name\n", ""),
+    ("pickle-dimstr-first-token", ["C20"], A, "        return _unpickle_array_annotation, (x.dtype, x.array_type, x.dim_str, dtypes)", "        return _unpickle_array_annotation, (x.dtype, x.array_type, x.dim_str.replace('#', ''), dtypes)"),
 ]
